@@ -93,7 +93,7 @@ package basestore
 //@   ghost N0 := evCount(b.emitters.evtWrite)
 //@   ghost LH := dsKey("_localHeads")
 //@   assert @ before call b.emitters.evtWrite.Emit#1: synced(b) && dsHas(C)[LH] && len(headsDec(dsMap(C)[LH])) == 1 && hs(headsDec(dsMap(C)[LH])[0]) == hs(e) && ents(L)[e]
-//@   ensures result1 == nil ==> result != nil && ents(L)[result] && !old(ents(L)[result]) && logLen(L) == old(logLen(L)) + 1
+//@   ensures result1 == nil ==> result != nil && ref(result) != 0 && ents(L)[result] && !old(ents(L)[result]) && logLen(L) == old(logLen(L)) + 1
 //@   ensures result1 == nil ==> (forall x Iface :: old(ents(L)[x]) ==> ents(L)[x])
 //@   ensures result1 == nil ==> dsHas(C)[LH] && len(headsDec(dsMap(C)[LH])) == 1 && hs(headsDec(dsMap(C)[LH])[0]) == hs(result) && headsWF(dsMap(C)[LH])
 //@   ensures result1 == nil ==> synced(b)
@@ -103,6 +103,7 @@ package basestore
 //@   ensures result1 != nil && logLen(L) == old(logLen(L)) ==> ents(L) == old(ents(L)) && valsOf(L) == old(valsOf(L)) && dsMap(C) == old(dsMap(C)) && idxState(b.index) == old(idxState(b.index))
 //@   ensures statusProgress(b.replicationStatus) <= statusMax(b.replicationStatus)
 //@   ensures result1 == nil ==> (opHasKey(result) == (ptr(op, "operation.operation").Key != nil)) && (opHasKey(result) ==> opKey(result) == deref(ptr(op, "operation.operation").Key)) && opKind(result) == ptr(op, "operation.operation").Op && opValue(result) == ptr(op, "operation.operation").Value && opOK(result)
+//@   ensures result1 == nil && (forall i Int :: 0 <= i && i < len(ptr(op, "operation.operation").Docs) ==> ptr(op, "operation.operation").Docs[i] != nil) ==> opNDocs(result) == len(ptr(op, "operation.operation").Docs) && (forall i Int :: 0 <= i && i < opNDocs(result) ==> opDocKey(result, i) == ptr(ptr(op, "operation.operation").Docs[i], "operation.opDoc").Key && opDocVal(result, i) == ptr(ptr(op, "operation.operation").Docs[i], "operation.opDoc").Value)
 //@   modifies ents(b.oplog), valsOf(b.oplog), logLen(b.oplog), headsOf(b.oplog), dsMap(b.cache), dsHas(b.cache), idxState(b.index), idxFails(b.index), statusMax(b.replicationStatus), statusProgress(b.replicationStatus), evCount(b.emitters.evtWrite), evLast(b.emitters.evtWrite), "G:sent:Iface"
 
 // replicationLoadComplete (a batch of fetched logs): every log of the batch is offered to Join whatever
